@@ -61,7 +61,7 @@ func runC20(src sim.Source, o Opts) *Result {
 	res := newResult()
 	res.Case["prop"] = "C20"
 	capt := &world.Capture{}
-	globalRes := src.Intn("globalresolver", 3) // 0 none 1 ok 2 failing
+	globalRes := src.Intn("globalresolver", 3)                                   // 0 none 1 ok 2 failing
 	failIP := sim.Pick(src, "failingresolveraddr", []string{"", "203.0.113.66"}) // what a failing resolver returns next to its error
 	var gopt []fox.GlobalOption
 	switch globalRes {
